@@ -53,7 +53,8 @@ def prelude(res, ctx, need_race=False, lean=True):
             # not fatal here: the stub it leaves makes the translated-function theorems fail to check below
             res.notes.append("translator could not translate /repo's current source: " + out[-600:])
     pid = ctx.pid
-    mod = "XixiKV.Properties." + pid
+    mods = core.property_modules(pid)
+    mod = " ".join(mods)
     thms = core.property_theorems(pid)
     res.obligations = list(thms)
     res.checker_cmd = "cd /verif/lean && lake build %s driver && lake env lean <#print axioms of each theorem>" % mod
@@ -63,7 +64,7 @@ def prelude(res, ctx, need_race=False, lean=True):
     if consts:
         thms = thms + ["XixiKV.ConstsCheck.consts_match"]
         res.obligations = list(thms)
-    ok, out, dt = core.lake_build(([mod] if thms else []) + (["XixiKV.Proofs.ConstsCheck"] if consts else []) + ["driver"])
+    ok, out, dt = core.lake_build((mods if thms else []) + (["XixiKV.Proofs.ConstsCheck"] if consts else []) + ["driver"])
     ctx.model_ok = os.path.exists(core.DRIVER) and ok
     if not thms:
         res.notes.append("no Lean theorems for this property yet")
@@ -82,7 +83,7 @@ def prelude(res, ctx, need_race=False, lean=True):
     hits = core.lean_sources_clean()
     if hits:
         res.violation("forbidden constructs in Lean sources: " + "; ".join(hits[:5]), {"hits": hits}, no_input=True)
-    axs, raw, rc = core.audit_axioms(mod + ("\nimport XixiKV.Proofs.ConstsCheck" if consts else ""), thms)
+    axs, raw, rc = core.audit_axioms("\nimport ".join(mods) + ("\nimport XixiKV.Proofs.ConstsCheck" if consts else ""), thms)
     bad = {}
     for t in thms:
         if t not in axs:
@@ -97,7 +98,7 @@ def prelude(res, ctx, need_race=False, lean=True):
     res.extra["axioms"] = {t: axs.get(t, []) for t in thms}
     if ctx.tier == "thorough":
         import subprocess
-        r = subprocess.run(["lake", "env", "leanchecker", mod], cwd=core.LEAN, capture_output=True, text=True)
+        r = subprocess.run(["lake", "env", "leanchecker"] + mods, cwd=core.LEAN, capture_output=True, text=True)
         res.extra["leanchecker"] = "ok" if r.returncode == 0 else (r.stdout + r.stderr)[-500:]
         if r.returncode != 0:
             res.violation("leanchecker rejected " + mod, {"out": (r.stdout + r.stderr)[-2000:]}, no_input=True)
